@@ -185,6 +185,40 @@ def r19_3(ctx):
     ctx.check(fr.params[1:4] == ["red", "green", "blue"], fr.fq, str(fr.params), fr.where, "from_rgb takes (red, green, blue) - the order the encoder writes", f"Color.from_rgb parameters are {fr.params[1:]} but the encoder writes r;g;b")
 
 
+def _ansi_alternatives(rx):
+    """(sgr alternative, osc alternative) of re_ansi read off the regex AST:  ESC [ (group) m   and   ESC ] (group) ESC \\ """
+    sgr_alt = osc_alt = None
+    for alt in regexast.alternatives(regexast.parse_call(rx)):
+        kinds = [a[0] for a in alt]
+        lits = [a[1] if a[0] == "lit" else None for a in alt]
+        if kinds == ["lit", "lit", "group", "lit"] and lits[0] == "\x1b" and lits[1] == "[" and lits[3] == "m":
+            sgr_alt = alt
+        elif kinds == ["lit", "lit", "group", "lit", "lit"] and lits[0] == "\x1b" and lits[1] == "]" and lits[3] == "\x1b" and lits[4] == "\\":
+            osc_alt = alt
+    return sgr_alt, osc_alt
+
+
+def r19_13(ctx):
+    ctx.rule("R19.13", "a control sequence that is not SGR never takes printable text with it: in re_ansi the parameter group of the ESC [ .. m alternative may only consume CSI parameter and intermediate bytes (0x20-0x3F). If it can consume a final byte or a letter (`.*?`), ESC[2K or ESC[?25l is read as the start of an SGR sequence that runs to the next letter m, and the text in between is dropped from the redirected line ('\\x1b[2Kdownloading item 3' decodes to ' 3')")
+    am = ctx.repo.mod("ansi")
+    rx = regexast.compile_call(am.global_assign("re_ansi"))
+    if rx is None:
+        raise AnchorVanished("ansi.re_ansi not found")
+    where = f"{am.relpath}:{rx.lineno}"
+    sgr_alt, _osc = _ansi_alternatives(rx)
+    if sgr_alt is None:
+        raise AnalysisError("re_ansi: no alternative of the form ESC [ (parameters) m was recognised; the tokenizer is written in a form this rule does not read")
+    rc = regexast.repeated_class(sgr_alt[2][2])
+    if rc is None:
+        raise AnalysisError("re_ansi: the SGR parameter group is not a repeated character class")
+    bad = [chr(c) for c in list(range(0x00, 0x20)) + list(range(0x40, 0x7F)) + [0xE9, 0x4E2D] if regexast.class_accepts(rc[2], rc[3], chr(c))]
+    if bad:
+        shown = "".join(c for c in bad if c.isprintable())[:12]
+        ctx.violation("ansi:re_ansi", rx.args[0].value, where, f"the SGR parameter group also consumes {len(bad)} kinds of character that cannot be part of the parameters (e.g. {shown!r}): ESC[2K followed by text is matched up to the next 'm' and that text is lost - AnsiDecoder().decode_line('\\x1b[2Kdownloading item 3').plain == ' 3'")
+    else:
+        ctx.ok(where, "the SGR parameters are limited to CSI parameter / intermediate bytes", "ansi:re_ansi")
+
+
 def r19_4(ctx):
     ctx.rule("R19.4", "reset and links: SGR 0 resets the running style to null; the OSC-8 template written by Style.render is matched by the decoder's regex and the decoder takes everything after the parameter field as the URL (so URLs containing ';' survive); an empty URL closes the link")
     f = ctx.repo.fn("ansi:AnsiDecoder.decode_line")
@@ -200,7 +234,15 @@ def r19_4(ctx):
     if rx is None:
         raise AnchorVanished("ansi.re_ansi not found")
     pat = rx.args[0].value
-    ctx.check("\\x1b\\](.*?)\\x1b\\\\" in pat and "\\x1b\\[(.*?)m" in pat, "ansi:re_ansi", pat, f"{am.relpath}:{rx.lineno}", "tokenizer recognises ESC[...m and ESC]...ESC\\\\",
+    sgr_alt, osc_alt = _ansi_alternatives(rx)
+    ok_sgr = ok_osc = False
+    if sgr_alt is not None:
+        rc = regexast.repeated_class(sgr_alt[2][2])
+        ok_sgr = rc is not None and rc[0] <= 1 and str(rc[1]) == "MAXREPEAT" and all(regexast.class_accepts(rc[2], rc[3], c) for c in "0123456789;")
+    if osc_alt is not None:
+        rc = regexast.repeated_class(osc_alt[2][2])
+        ok_osc = rc is not None and rc[0] == 0 and str(rc[1]) == "MAXREPEAT" and all(regexast.class_accepts(rc[2], rc[3], c) for c in "8;id=0123456789-abcxyzABCXYZ:/.?&%#~_ ")
+    ctx.check(ok_sgr and ok_osc, "ansi:re_ansi", pat, f"{am.relpath}:{rx.lineno}", "tokenizer recognises ESC[<digits and ;>m and ESC]<text>ESC\\\\",
               "re_ansi no longer matches the SGR (ESC[..m) and OSC (ESC]..ESC\\) forms the encoder writes")
     # encoder template
     r = ctx.repo.fn("style:Style.render")
@@ -526,4 +568,4 @@ def r19_12(ctx):
         ctx.ok(init.where, f"decoder slot(s) {sorted(slots)} stored only in __init__", init.fq)
 
 
-RULES = [r19_1, r19_2, r19_3, r19_4, r19_5, r19_6, r19_8, r19_9, r19_10, r19_11, r19_12]
+RULES = [r19_1, r19_2, r19_3, r19_4, r19_5, r19_6, r19_8, r19_9, r19_10, r19_11, r19_12, r19_13]
